@@ -695,6 +695,20 @@ class Dumper {
         J.attribute("targs", aos.str());
       }
       if (inst != 0) J.attribute("empty", R->isEmpty());
+      if (inst != 0) {
+        // how the class is copied: user (user-provided), defaulted, implicit (member-wise), deleted
+        std::string cc = R->needsImplicitCopyConstructor()
+                             ? (R->defaultedCopyConstructorIsDeleted() ? "deleted" : "implicit") : "";
+        for (auto* C : R->ctors())
+          if (C->isCopyConstructor())
+            cc = C->isDeleted() ? "deleted" : C->isUserProvided() ? "user" : C->isImplicit() ? "implicit" : "defaulted";
+        std::string ca = R->needsImplicitCopyAssignment() ? "implicit" : "";
+        for (auto* M : R->methods())
+          if (M->isCopyAssignmentOperator())
+            ca = M->isDeleted() ? "deleted" : M->isUserProvided() ? "user" : M->isImplicit() ? "implicit" : "defaulted";
+        J.attribute("copy_ctor", cc);
+        J.attribute("copy_assign", ca);
+      }
       J.attributeArray("bases", [&] {
         for (auto& B : R->bases()) {
           J.object([&] {
@@ -711,6 +725,7 @@ class Dumper {
             J.attribute("n", declName(F));
             J.attribute("l", (int64_t)lineOf(userLoc(F->getLocation())));
             typeAttrs(F->getType());
+            if (inst != 0 && !F->getType()->isDependentType()) J.attribute("ct", canonStr(F->getType()));
             if (F->isMutable()) J.attribute("mutable", true);
             if (F->getType().isConstQualified()) J.attribute("const", true);
             if (isEmptyClassType(F->getType())) J.attribute("empty", true);
